@@ -23,7 +23,7 @@ const P = 3 * time.Second
 // contents the server goes through (reference), rendered as accepted lists.
 func contents(c ctl.Cfg) []string {
 	cur := map[string]metav1.Object{}
-	rv := 0
+	rv := c.StartRV
 	apply := func(m ctl.Mut) {
 		if m.Op == "set" {
 			rv++
@@ -264,6 +264,37 @@ func Property() runner.Property {
 			out = append(out, ov)
 			// the same with a subscriber: it legitimately misses events, but it stays subscribed while the controller runs
 			out = append(out, mk("overflow/bufsiz1/burst4+subscriber", ctl.Cfg{Pre: pre, Hist: burst, Bufsiz: 1}))
+			// scale, on the default schedule: 150 changes 20 ms apart (two relists fall into the stream; versions pass
+			// 9, 99 and, from 950, 999) and a server holding 300 objects - nothing depends on how much has passed
+			{
+				var long []ctl.Mut
+				for i := 0; i < 150; i++ {
+					switch i % 4 {
+					case 0:
+						long = append(long, ctl.Mut{Op: "set", Name: "a", Labels: "l=0", Delay: 20 * time.Millisecond})
+					case 1:
+						long = append(long, ctl.Mut{Op: "set", Name: "b", Labels: "l=1", Delay: 20 * time.Millisecond})
+					case 2:
+						long = append(long, ctl.Mut{Op: "set", Name: "a", Labels: "l=1", Delay: 20 * time.Millisecond})
+					default:
+						long = append(long, ctl.Mut{Op: "del", Name: "b", Delay: 20 * time.Millisecond})
+					}
+				}
+				for _, start := range []int{0, 950} {
+					s := mk(fmt.Sprintf("long-history/150-changes/from%d", start), ctl.Cfg{Pre: pre, Hist: long, StartRV: start, ReadAt: 8 * time.Second})
+					s.Scenario.Mode, s.Scenario.Bound = "D0", 0
+					out = append(out, s)
+				}
+				var many []ctl.Mut
+				for i := 0; i < 300; i++ {
+					many = append(many, ctl.Mut{Op: "set", Name: fmt.Sprintf("o%03d", i), Labels: fmt.Sprintf("l=%d", i%2)})
+				}
+				for _, f := range []int{0, 2} {
+					s := mk(fmt.Sprintf("large-server/300-objects/filter%d", f), ctl.Cfg{Filter: f, Pre: many, Hist: h[:3], ReadAt: 8 * time.Second})
+					s.Scenario.Mode, s.Scenario.Bound = "D0", 0
+					out = append(out, s)
+				}
+			}
 			if tier == "thorough" {
 				out = append(out,
 					mk("watch-bookmark@0/h4", ctl.Cfg{Filter: 2, Pre: pre, Hist: h, WatchFaults: map[int]fakeapi.WatchFault{1: W("bookmark", 0)}}),
